@@ -251,6 +251,88 @@ def r5_alias_flattening(ctx, F):
     ctx.analysed("get_by_id performs %d map lookups (direct, alias, alias target, procedure)" % hops)
 
 
+# ---- R6: module privacy - a name-derived cache id only for exported procedures ---------------------------------------------------
+def _export_guarded(F, fn, bi, depth=4):
+    """True when block bi of fn runs only after some NamedProcedure::is_export() returned true: a switch on that call's result
+    whose true target dominates bi, in fn itself or (for helpers and closures) at every site that calls / builds fn"""
+    for sb, b in enumerate(fn.blocks):
+        t = b["t"]
+        if t["k"] != "switch":
+            continue
+        o, neg = t["o"], False
+        r = def_rvalue(fn, o)
+        while r is not None and r["k"] == "un" and r["op"] == "Not":
+            neg = not neg
+            o = r["o"]
+            r = def_rvalue(fn, o)
+        dc = def_call(fn, o)
+        if dc is None or not re.search(r"NamedProcedure::is_export$", strip_targs(dc[2]["f"].get("fn", ""))):
+            continue
+        arms = dict((a[0], a[1]) for a in t["arms"])
+        if 0 not in arms:
+            continue
+        true_t, false_t = (t["else"], arms[0]) if not neg else (arms[0], t["else"])
+        if true_t != false_t and fn.dominates(true_t, bi) and len(fn.preds().get(true_t, [])) == 1:
+            return True
+    if depth == 0:
+        return False
+    sites = []
+    for cid in F.callers(fn.id):
+        cf = F.fns[cid]
+        sites += [(cf, cb) for cb, cc, ct in cf.calls() if cc == fn.id]
+    if "{closure" in fn.id:
+        parent = F.fns.get(fn.id.rsplit("::{closure", 1)[0])
+        if parent is not None:
+            sites += [(parent, pb) for pb, b in enumerate(parent.blocks) for st in b["s"] if st["r"]["k"] == "agg" and st["r"].get("ak") == "closure" and st["r"].get("fn") == fn.id]
+    return bool(sites) and all(_export_guarded(F, cf, cb, depth - 1) for cf, cb in sites)
+
+
+def r6_module_privacy(ctx, F):
+    """the id under which compile_module caches a module's own procedure is derived from the procedure's name only when the
+    procedure is exported; otherwise a by-name import from another module would resolve to a private procedure"""
+    ins = [k for k in F.fns if re.search(r"procedure_cache::ProcedureCache::insert$", strip_targs(k))]
+    if len(ins) != 1:
+        ctx.violation("anchor|ProcedureCache::insert", "assembly/src/assembler/procedure_cache.rs", "ProcedureCache::insert not found")
+        return
+    nsites = 0
+    nname = 0
+    for cid in sorted(F.callers(ins[0])):
+        cf = F.fns[cid]
+        for cb, cc, ct in cf.calls():
+            if cc != ins[0]:
+                continue
+            nsites += 1
+            ctx.inst(key="insert@%s" % short(cf.id), nontrivial=True)
+            # from_name calls feeding the id argument: in this function, or inside assembler helpers (and their closures) whose
+            # result feeds it
+            todo, seen, found = [(cf, ct["args"][2])], set(), []
+            while todo:
+                fn, opnd = todo.pop()
+                sl = fn.backward_slice(opnd["l"], through_calls=False) if opnd is not None and "l" in opnd else {"calls": []}
+                for b2, callee, t2 in sl["calls"]:
+                    cs = strip_targs(callee)
+                    if re.search(r"ProcedureId::from_name$", cs):
+                        found.append((fn, b2, t2))
+                    elif re.match(r"^miden_assembly::assembler::", cs) and callee in F.fns and callee not in seen and not re.search(r"procedure_cache::", cs):
+                        seen.add(callee)
+                        helper = F.fns[callee]
+                        members = [helper] + [g for g in F.fns.values() if g.id.startswith(helper.id + "::{closure")]
+                        for g in members:
+                            for b3, c3, t3 in g.calls():
+                                if re.search(r"ProcedureId::from_name$", strip_targs(c3)):
+                                    found.append((g, b3, t3))
+            for fn, b2, t2 in found:
+                nname += 1
+                ok = _export_guarded(F, fn, b2)
+                ctx.oblig(ok)
+                if not ok:
+                    ctx.violation("private-procedure-named-id|%s" % short(fn.id), fn.loc(t2["ln"]),
+                                  "the id passed to ProcedureCache::insert in %s comes from ProcedureId::from_name (%s) on a path that is not conditional on NamedProcedure::is_export(): "
+                                  "a non-exported procedure becomes importable by name from other modules" % (short(cf.id), short(fn.id)))
+    ctx.floor("cache-insert-sites", nsites, 1)
+    ctx.floor("name-derived-ids", nname, 1)
+
+
 def run(ctx, F):
     ctx.trusted += ["rustc MIR via mirfacts", "lowering extractor for the parameter paths"]
     ctx.assumptions += ["equality of programs across compilation histories is not decided; the rules decide that callsets are closed under every registration path, "
@@ -260,3 +342,4 @@ def run(ctx, F):
     ctx.run_rule("C11-R3", "no compiler-inserted arithmetic check on an instruction parameter before its validation", r3_no_panic_in_validation, F)
     ctx.run_rule("C11-R4", "procedure cache keyed by MAST root and id with a rejecting path for conflicts", r4_cache_keys, F)
     ctx.run_rule("C11-R5", "procedure aliases are stored flattened: the value stored for an alias is always a key of proc_id_map (re-export chains resolve with one hop)", r5_alias_flattening, F)
+    ctx.run_rule("C11-R6", "module privacy: the cache id of a module's own procedure is derived from its name only under NamedProcedure::is_export()", r6_module_privacy, F)
